@@ -29,6 +29,7 @@ type Contract struct {
 	Key      string // "pkg.Func" or "pkg.(*T).M" or "pkg.(T).M"
 	Pkg      string
 	Requires []*Clause
+	Premises []*Clause // stated premises of a property: assumed by the function and at its call sites
 	Ensures  []*Clause
 	Modifies []*Clause
 	Invs     []*Clause // loop invariants
@@ -39,6 +40,7 @@ type Contract struct {
 	Safety   []string // property tags for automatic no-panic obligations
 	NoSafety bool
 	Serves   []string // properties that claim this function's base clauses
+	Sites    []*Clause // call-site assertions: Label=callee key pattern
 	Params   []string // explicit formal names (for interface methods / externs)
 	Pure     bool
 	File     string
@@ -92,7 +94,7 @@ type ContractSet struct {
 	Files   []string
 }
 
-var clauseRe = regexp.MustCompile(`^(requires|ensures|modifies|loop|use|func|extern|iface|pred|ghost|devirt|noeffect|assumed|inline|safety|nosafety|params|pure|ufun|axiom|serves|modset)\b`)
+var clauseRe = regexp.MustCompile(`^(premise|requires|ensures|modifies|loop|use|func|extern|iface|pred|ghost|devirt|noeffect|assumed|inline|safety|nosafety|params|pure|ufun|axiom|serves|modset|callsite)\b`)
 
 func newContractSet() *ContractSet {
 	return &ContractSet{Funcs: map[string]*Contract{}, Defs: map[string]*SpecDef{}, NoEffectIfaces: map[string]bool{}, UFuns: map[string]*UFun{}, ModSets: map[string]*ModSet{}}
@@ -270,6 +272,39 @@ func (ct *Contract) addClause(kw, rest, file string, line int) error {
 	case "safety":
 		ct.Safety = cl.Tags
 		return nil
+	case "callsite":
+		// callsite <calleeKey|*> assert[TAGS] @label expr
+		f := strings.Fields(rest)
+		if len(f) < 3 || !strings.HasPrefix(f[1], "assert") {
+			return fmt.Errorf("callsite wants: callsite <callee> assert[tags] @label expr")
+		}
+		cl.Kind = "callsite"
+		callee := f[0]
+		body := strings.TrimSpace(rest[len(f[0]):])
+		body = strings.TrimSpace(strings.TrimPrefix(body, "assert"))
+		if m := tagRe.FindStringSubmatch(body); m != nil {
+			for _, t := range strings.Split(m[1], ",") {
+				cl.Tags = append(cl.Tags, strings.TrimSpace(t))
+			}
+			body = strings.TrimSpace(body[len(m[0]):])
+		}
+		if m := labelRe.FindStringSubmatch(body); m != nil {
+			cl.Label = m[1]
+			body = body[len(m[0]):]
+		}
+		e, err := parseSpecExpr(body)
+		if err != nil {
+			return err
+		}
+		cl.Text, cl.Expr = body, e
+		if callee != "*" {
+			callee = qualify(ct.Pkg, callee)
+		}
+		cl.File = callee // callee pattern
+		cl.Ord = len(ct.Sites)
+		cl.Line = line
+		ct.Sites = append(ct.Sites, cl)
+		return nil
 	case "serves":
 		for _, p := range strings.Split(rest, ",") {
 			if p = strings.TrimSpace(p); p != "" {
@@ -357,6 +392,9 @@ func (ct *Contract) addClause(kw, rest, file string, line int) error {
 	}
 	cl.Text, cl.Expr = rest, e
 	switch kw {
+	case "premise":
+		cl.Ord = len(ct.Premises)
+		ct.Premises = append(ct.Premises, cl)
 	case "requires":
 		cl.Ord = len(ct.Requires)
 		ct.Requires = append(ct.Requires, cl)
